@@ -14,6 +14,24 @@ CLAIMED = {
         text="Batch.tla specifies partitioning, any-order start/finish by W workers, failure and in-order gather; TLC checks OkIsIdentity / NeverSilent / PartitionResults / termination exhaustively for N<=6 and for the code's constants (PSize=100). Every maximal TLC behaviour of the replay instances is stepped through the real batch call, all completion orders x failure positions x partition sizes are run with an order-controlled scheduler, and executions under dask's synchronous/threads/processes schedulers are recorded; every execution is a trace validated by TLC against Batch.tla with result tokens obtained by bitwise comparison with one-at-a-time evaluation on fresh kernel objects.",
         note="Assumes: dask invokes callbacks in the scheduler thread (linearised log); intra-kernel thread interleavings are sampled not enumerated; result identity by bitwise equality with single-event evaluation.",
         design="4/C10"),
+    "C17": dict(
+        category="model_checking",
+        technique="TLA+ spec NuSpaceSim.tla (pipeline, staged writer, crash/failure) model-checked by TLC; TLC-enumerated (configuration, crash point) fault plan realised on compute(); every run validated as a trace (TraceNuSpaceSim.tla)",
+        text="NuSpaceSim.tla models stages enabled by data dependencies, the two-step staged writer (mutate, rewrite), stage failure and process death; TLC checks DiskIsMemAtBoundary / DiskIsPrefix / NoWriteWhenDisabled / FileOnlyGrows over all 32 configurations x all linearisations x all crash points (3e5 states). The fault plan printed by TLC is executed on the real compute(): exception at every boundary, exception inside every stage method, os._exit in a subprocess; an instrumented results table logs every mutation with the output file read back, and TLC validates each run against the model.",
+        note="Assumes: astropy's FITS reader for read-back; process death between staged-writer calls (not inside a write); header floats compared at FITS card precision (16 significant digits).",
+        design="4/C17"),
+    "C14": dict(
+        category="model_checking",
+        technique="TLA+ specs NuSpaceSim.tla (FinalStructure) and RunMatrix.tla (product state of runs: reproducible, optical-/radio-isolated) checked by TLC; the TLC-enumerated configuration matrix executed on compute() under 4 schedulers and validated as traces",
+        text="FinalStructure (exact columns/header keywords per configuration, early return) is an invariant of NuSpaceSim.tla over all linearisations; RunMatrix.tla states (R), (I-opt), (I-rad) over a set of runs, model-checked on an abstract simulator with a leaky counter-model that must fail. The run matrix {Diffuse,Target}x{mono,power}x{none,uniform,map}x{33,525 km} (covering subset in quick, full in thorough) is run with channel switches and the sync / threads-4 / processes-2 / order-reversed schedulers; per-run mutation traces and the run-set trace are validated by TLC; thorough also compares the `nuspacesim run` CLI output file with the API result.",
+        note="Assumes: column identity = SHA-256 of dtype/shape/bytes; numpy's global generator seeded by np.random.seed; per-row cross-stage consistency is decided by the stage properties C03/C05/C07/C08 on the same tables.",
+        design="4/C14"),
+    "C11": dict(
+        category="model_checking",
+        technique="TLA+ specs StageHistory.tla (stateless-service call histories) and MaskScatter.tla (mask/compress/scatter in buffer chunks, with two rejected bug variants) checked by TLC; TLC's histories replayed on one object of each of 14 stage entry points; replays validated as traces (TraceStageHistory.tla)",
+        text="StageHistory's state space is the set of all call histories (ids 1..3, batches<=3, <=3 calls: 60880); a sample (quick) or ~3000 (thorough) is replayed on ONE object of every stage entry point with ids mapped to pool events that include the boundary classes, plus single-event batches, full/reversed/split pool batches and tiled batches of 8191/8192/8193/20000 elements; TLC checks per call that every position's output digest equals the memo for that event and that input arrays are intact.",
+        note="Assumes: fixed random numbers via explicit u or a constant np.random shim; per-position identity by digest of all public per-event outputs.",
+        design="4/C11"),
 }
 
 NOT_BUILT_REASON = "not claimed yet: its specification module and binding are not finished in this tree (see DESIGN.md section 9 build order); no other technique is substituted"
